@@ -453,6 +453,23 @@ func (vc *VC) evalCall(x *ast.CallExpr, st *State) Val {
 			return vc.opaque(rt, "try")
 		}
 	}
+	if fn != nil && fn.Pkg() != nil && fn.Pkg().Path() == "math" {
+		// floats are an uninterpreted sort; NaN-ness is the one float fact the path state machine relies on:
+		// math.NaN() is a constant with isnan, math.IsNaN is that predicate
+		switch fn.Name() {
+		case "NaN":
+			nan := App("flt_nan", "Flt")
+			vc.assumeOnce("flt_nan_isnan", App("flt_isnan", SBool, nan))
+			return mkVal(rt, nan)
+		case "IsNaN":
+			if len(x.Args) == 1 {
+				a := vc.eval(x.Args[0], st)
+				if len(a.C) == 1 && a.C[0].Sort == "Flt" {
+					return mkVal(rt, App("flt_isnan", SBool, a.C[0]))
+				}
+			}
+		}
+	}
 	if fn == nil {
 		// call through function value
 		fv := vc.eval(x.Fun, st)
@@ -923,6 +940,7 @@ type region struct {
 	wholeMap types.Type
 	mapRef *Term
 	guard  *Term
+	wholeHeap types.Type // "modifies bytes": every cell of the byte memory (in-place rewriting of lexer buffers)
 }
 
 func (vc *VC) regionsOf(env *SpecEnv, e ast.Expr) []region {
@@ -967,6 +985,11 @@ func (vc *VC) regionsOf(env *SpecEnv, e ast.Expr) []region {
 			}
 		}
 	case *ast.Ident:
+		if x.Name == "bytes" {
+			if _, shadow := env.lookup(x.Name); !shadow {
+				return []region{{wholeHeap: types.Typ[types.Uint8]}}
+			}
+		}
 		v, ok := env.lookup(x.Name)
 		if ok && kindOf(v.T) == KSlice {
 			et := elemTypeOf(v.T)
@@ -992,6 +1015,10 @@ func (vc *VC) regionsOf(env *SpecEnv, e ast.Expr) []region {
 }
 
 func (vc *VC) havocRegion(st *State, r region) {
+	if r.wholeHeap != nil {
+		vc.havocType(st, r.wholeHeap)
+		return
+	}
 	if r.global != nil {
 		for _, cp := range layout(r.global.Type()) {
 			name := globalKey(r.global) + cp.Path
